@@ -711,7 +711,7 @@ func subC(rc *kernel.RunCtx, k *kernel.Kernel) {
 					k.Quiesce()
 				}})
 			}
-			if !c.cancelled && !c.done && k.Find(c.task) == nil && k.Find("wr:A") == nil {
+			if !c.cancelled && !c.done && k.Find(c.task) == nil {
 				if rd := k.Find("rd:A"); rd != nil {
 					iomu.Lock()
 					empty := len(w.b2a.buf) == 0
@@ -719,7 +719,7 @@ func subC(rc *kernel.RunCtx, k *kernel.Kernel) {
 					if empty {
 						// the reply and the caller's cancellation arrive together: either outcome is the
 						// caller's own (its result or its cancellation); nothing about the outcome is logged
-						acts = append(acts, action{wCancel, func() {
+						acts = append(acts, action{2 + 2*wCancel, func() {
 							k.Action("reply to " + c.value + " and cancel it at the same moment")
 							c.answered, c.cancelled = true, true
 							k.Count("fault_reply_races_cancellation", 1)
